@@ -247,6 +247,10 @@ type AnswerSpec struct {
 	PadTo int      `json:"pad_to,omitempty"`
 	// MaxNames: the name pool also holds names of exactly 255 and 254 octets.
 	MaxNames bool   `json:"max_names,omitempty"`
+	// Nested: the name pool holds a chain of names each of which is the
+	// previous one with another label in front (12-16 of them): written with
+	// full suffix sharing, the last one is reached through as many pointers.
+	Nested bool `json:"nested,omitempty"`
 	OPT      *UpOPT `json:"opt,omitempty"`
 	// Compress: how the server lays the reply out: 0 none, 1 owners, 2 owners+rdata, 3 +srv
 	Compress int `json:"compress"`
